@@ -233,7 +233,18 @@ def typeof(o):
 
 
 def lt(a, b):
-    return a < b
+    try:
+        return bool(a < b)
+    except TypeError:
+        return False
+
+
+def isfinite(v):
+    import math
+    try:
+        return math.isfinite(v)
+    except (TypeError, ValueError, OverflowError):
+        return False
 
 
 # ---- containers -----------------------------------------------------------------------------------------
@@ -430,6 +441,9 @@ def namespace():
     for n in ('ParseInterrupt', 'ConvertError', 'WrongTypeError', 'WrongLenError', 'ConditionFailedError',
               'DuplicateKeyError', 'ProductErrorNode', 'SumErrorNode', 'ErrorNode', 'UnsupportedAnnotation'):
         ns[n] = getattr(_err, n)
+    import pane.annotations as _ann
+    ns['Condition'] = _ann.Condition
+    ns['Tagged'] = _ann.Tagged
     ns['Field'] = importlib.import_module('pane.field').Field
     ns['FieldSpec'] = importlib.import_module('pane.field').FieldSpec
     return ns
